@@ -182,3 +182,46 @@ func VerifHarness_C09_balance_changes() {
 	}
 	check()
 }
+
+// VerifHarness_C09_blocks_after_prune: blocks inserted AFTER a finalization prune are linked to the right parents: on the
+// chain P0(0) - P1(2) - P2(4) (2 slots per epoch) one validator votes for P2, the store finalizes and justifies (P1,1)
+// (the array prefix before it is pruned), then two more blocks arrive - P3 on P2 (at the next slot or one later), and P4
+// either on P3 or as a fork on P1 - and Head() is read without any further vote: it is the tip of the voted branch.
+// Bounds: this one history shape (4 variants), roots ordered by insertion (second byte symbolic), balance symbolic > 0.
+func VerifHarness_C09_blocks_after_prune() {
+	s, fcI, _ := vNewWorldSink(5, 1)
+	f := fcI.fc
+	zzverif.Assume(s.bal[0] > 0)
+	// this array keeps a node per (root, slot): the empty-slot node (P2,5) and the block node (P3,5) are siblings that tie
+	// at weight 0, and ties go to the greater root. Later roots are made greater, so that the added blocks win their ties.
+	for i := range s.pool {
+		zzverif.Assume(s.pool[i][0] == byte(i+1))
+	}
+	spe := s.spe
+	f.ProcessBlock(s.pool[0], s.pool[1], Slot(spe), 0, 0)
+	f.ProcessBlock(s.pool[1], s.pool[2], Slot(2*spe), 1, 1)
+	f.ProcessAttestation(0, s.pool[2], Slot(2*spe))
+	h0, err := f.Head()
+	zzverif.Assert(err == nil && h0.Root == s.pool[2], "before the update the head is the voted block")
+	cp := Checkpoint{Root: s.pool[1], Epoch: 1}
+	bal := Gwei(s.bal[0])
+	err = f.UpdateJustified(context.Background(), s.pool[2], cp, cp, func() ([]Gwei, error) { return []Gwei{bal}, nil })
+	zzverif.Assert(err == nil, "finalizing (P1,1) succeeds")
+	gap := zzverif.Choose(2)
+	fork := zzverif.Choose(2) == 1
+	s3 := 2*spe + 1 + gap
+	zzverif.Reach("blocks-after-prune")
+	zzverif.Assert(f.ProcessBlock(s.pool[2], s.pool[3], Slot(s3), 1, 1), "a block on the head is accepted after pruning")
+	want := s.pool[3]
+	if fork {
+		zzverif.Assert(f.ProcessBlock(s.pool[1], s.pool[4], Slot(spe+1), 1, 1), "a fork block on the finalized block is accepted after pruning")
+	} else {
+		zzverif.Assert(f.ProcessBlock(s.pool[3], s.pool[4], Slot(s3+1), 1, 1), "a block on the new block is accepted after pruning")
+		want = s.pool[4]
+	}
+	zzverif.MustReturnWithin(400000)
+	h1, err := f.Head()
+	zzverif.MustReturnWithin(0)
+	zzverif.Assert(err == nil, "Head() succeeds after pruning and new blocks")
+	zzverif.Assert(err != nil || h1.Root == want, "after pruning, Head() follows the blocks added on the voted branch")
+}
